@@ -382,7 +382,7 @@ pub fn text_fault(rng: &mut Rng, s: &mut String) -> &'static str {
             "crlf"
         }
         8 => {
-            s.push_str(*rng.pick(&["\n", "junk", "junk\n", "\n\n# x", " ", ":", "-----END PGP SIGNATURE-----\n", "\u{0}", "A: b", " cont"]));
+            s.push_str(rng.s(&["\n", "junk", "junk\n", "\n\n# x", " ", ":", "-----END PGP SIGNATURE-----\n", "\u{0}", "A: b", " cont"]));
             "junk_tail"
         }
         _ => {
